@@ -60,6 +60,16 @@ class FormulaSpace:
                     if c[0] == "const" and x[0] != "const" and c[1] is not None:
                         groups.setdefault(x, []).append((c[1], a))
         th = self.axioms
+        # one value has one variant: `x is A` and `x is B` exclude each other
+        isg = {}
+        for a in b.vars:
+            if isinstance(a, tuple) and a and a[0] == "is":
+                isg.setdefault(a[1], []).append(a)
+        for x, lst in isg.items():
+            for i in range(len(lst)):
+                for j in range(i + 1, len(lst)):
+                    if lst[i][2] != lst[j][2]:
+                        th = b.AND(th, b.NOT(b.AND(b.var(lst[i]), b.var(lst[j]))))
         for x, lst in groups.items():
             for i in range(len(lst)):
                 for j in range(i + 1, len(lst)):
